@@ -148,7 +148,8 @@ Section Proofs.
   Definition col_ok (encrypted : bool) (c : col) : Prop :=
     c_path c = cc_path (c_cfg c)
     /\ (c_switched c = false -> c_enc c = enc0 (c_cfg c))
-    /\ (encrypted = false -> c_ordinal c = 0).
+    /\ (encrypted = false -> c_ordinal c = 0)
+    /\ c_plain c = [].
 
   Definition cols_ok (encrypted : bool) (ccs : list colcfg) (cols : list col) : Prop :=
     Forall (col_ok encrypted) cols /\ map c_cfg cols = ccs.
@@ -165,12 +166,12 @@ Section Proofs.
 
   Lemma col_add_rows_ok : forall e c rows, col_ok e c ->
     col_ok e (col_add_rows c rows) /\ c_cfg (col_add_rows c rows) = c_cfg c.
-  Proof. intros e [cc p en sw o a] rows H. cbn in *. auto. Qed.
+  Proof. intros e [cc p en sw o a pl] rows H. cbn in *. auto. Qed.
 
   Lemma col_flush_page_ok : forall e e' c, col_ok e c ->
     col_ok e (col_flush_page e' c) /\ c_cfg (col_flush_page e' c) = c_cfg c.
   Proof.
-    intros e e' [cc p en sw o a] (Hp & He & Ho). unfold Model.col_flush_page. cbn in *.
+    intros e e' [cc p en sw o a pl] (Hp & He & Ho & Hl). unfold Model.col_flush_page. cbn in *.
     destruct (a_buffer a); [repeat split; auto|].
     match goal with |- context [if ?b then _ else _] => destruct b eqn:Hb end; cbn.
     - repeat split; auto. discriminate.
@@ -188,21 +189,21 @@ Section Proofs.
 
   Lemma col_reset_ok : forall e c, col_ok e c -> col_ok e (col_reset c) /\ c_cfg (col_reset c) = c_cfg c.
   Proof.
-    intros e [cc p en sw o a] (Hp & He & Ho). cbn in *. repeat split; auto.
+    intros e [cc p en sw o a pl] (Hp & He & Ho & Hl). cbn in *. repeat split; auto.
     intros _. destruct sw; auto.
   Qed.
 
   Lemma set_ordinal_ok : forall e o c, col_ok e c ->
     col_ok e (set_ordinal e o c) /\ c_cfg (set_ordinal e o c) = c_cfg c.
   Proof.
-    intros e o [cc p en sw od a] (Hp & He & Ho). cbn in *. repeat split; auto.
+    intros e o [cc p en sw od a pl] (Hp & He & Ho & Hl). cbn in *. repeat split; auto.
     intros E. rewrite E. auto.
   Qed.
 
   Lemma col_next_rg_ok : forall e o c, col_ok e c ->
     col_ok e (col_next_rg e o c) /\ c_cfg (col_next_rg e o c) = c_cfg c.
   Proof.
-    intros e o c H. destruct (col_reset_ok e c H) as ((Hp & He & Ho) & E).
+    intros e o c H. destruct (col_reset_ok e c H) as ((Hp & He & Ho & Hl) & E).
     unfold col_next_rg. cbn. repeat split; auto.
     intros E'. rewrite E'. auto.
   Qed.
@@ -317,7 +318,7 @@ Section Proofs.
   (** reset returns every logical field to its initial value *)
   Lemma col_reset_init : forall e c, col_ok e c -> set_ordinal e 0 (col_reset c) = col_init (c_cfg c).
   Proof.
-    intros e [cc p en sw o a] (Hp & He & Ho). cbn in *. unfold col_init, set_ordinal. cbn.
+    intros e [cc p en sw o a pl] (Hp & He & Ho & Hl). cbn in *. unfold col_init, set_ordinal. cbn.
     rewrite Hp. f_equal.
     - destruct sw; auto.
     - destruct e; auto.
